@@ -288,6 +288,11 @@ pub fn lattice_len(rng: &mut Rng, big: bool) -> usize {
     if big && rng.chance(1, 1500) {
         return *rng.pick(&[2_097_150usize, 2_097_151, 2_097_152]);
     }
+    // rarely: lengths around 2^16 — not a vint boundary, but the size of the reader's default buffer and of the async
+    // adapter's transfer buffer, i.e. the natural threshold of any "large payload" path in reader or writer
+    if big && rng.chance(1, 500) {
+        return *rng.pick(&[65_534usize, 65_535, 65_536, 65_537, 65_536 + 4_096, 131_072]);
+    }
     match rng.below(100) {
         0..=59 => rng.urange(0, 12),
         60..=79 => *rng.pick(&[0usize, 1, 2, 125, 126, 127, 128, 129]),
